@@ -2,6 +2,7 @@ package checks
 
 import (
 	"bytes"
+	"errors"
 	"encoding/json"
 	"fmt"
 	"image"
@@ -88,7 +89,7 @@ type c17Replay struct {
 // of reader (the "environment answers" of a read: all at once with a known
 // length, unknown length, one byte per Read, data together with io.EOF, and
 // through image.Decode's format sniffing, which wraps the reader in bufio).
-var c17Readers = []string{"bytes.Reader", "no-Len", "one-byte", "data+EOF", "image.Decode"}
+var c17Readers = []string{"bytes.Reader", "no-Len", "one-byte", "data+EOF", "image.Decode", "then-error"}
 
 type noLen struct{ r io.Reader }
 
@@ -102,6 +103,9 @@ func c17Reader(kind string, data []byte) io.Reader {
 		return iotest.OneByteReader(bytes.NewReader(data))
 	case "data+EOF":
 		return iotest.DataErrReader(bytes.NewReader(data))
+	case "then-error":
+		// the connection breaks: the bytes, then an error that is not io.EOF
+		return io.MultiReader(bytes.NewReader(data), iotest.ErrReader(errors.New("connection reset")))
 	}
 	return bytes.NewReader(data)
 }
@@ -162,7 +166,7 @@ func c17CutWith(f namedFile, ref *fullRef, n int, kind string) string {
 		if d := imageEqual(ref.img, img); d != "" {
 			return "Decode accepted the prefix but returned a different picture: " + d
 		}
-	} else if n == len(f.Data) {
+	} else if n == len(f.Data) && kind != "then-error" {
 		return "Decode rejects the complete file: " + err.Error()
 	}
 	cfg, cerr, cp := func() (c image.Config, e error, p string) {
@@ -246,7 +250,7 @@ func c17TailFiles(seed int64, quick bool) []namedFile {
 func init() {
 	fw.Register(&fw.Check{
 		ID: "C17", Level: "fault_enumeration", Shards: shards16,
-		Rule:   "corpus of valid still files (lossy 1/2/4/8 partitions, lossless per transform class, lossy+alpha raw/VP8L x filters, extended with metadata before/after, unknown chunks, odd payloads, testdata) x EVERY prefix length 0..len (the complete file included) x 5 kinds of io.Reader (known length, unknown length, one byte per Read, data together with io.EOF, image.Decode/DecodeConfig through the registered format); Decode = error or identical picture; DecodeConfig/GetFeatures = error or identical values; plus the stream-ending family: every small picture of 14 sizes x 7 content classes x 2 alpha classes x 5 codec settings x 3 (thorough 12) fillers cut at each of its last 16 bytes, same readers and oracle; non-trivial = a (file, cut) pair with cut > 0",
+		Rule:   "corpus of valid still files (lossy 1/2/4/8 partitions, lossless per transform class, lossy+alpha raw/VP8L x filters, extended with metadata before/after, unknown chunks, odd payloads, testdata) x EVERY prefix length 0..len (the complete file included) x 6 kinds of io.Reader (known length, unknown length, one byte per Read, data together with io.EOF, image.Decode/DecodeConfig through the registered format, the bytes followed by an error other than io.EOF); Decode = error or identical picture; DecodeConfig/GetFeatures = error or identical values; plus the stream-ending family: every small picture of 14 sizes x 7 content classes x 2 alpha classes x 5 codec settings x 3 (thorough 12) fillers cut at each of its last 16 bytes, same readers and oracle; non-trivial = a (file, cut) pair with cut > 0",
 		Assume: []string{"worker count pinned to 1, pools never reuse", "corpus files are produced by this package's encoder and by the harness's RIFF writer"},
 		Run: func(e *fw.Env, r *fw.Result) {
 			pin()
